@@ -108,9 +108,12 @@ def gen(ctx, cfg, how, depth, num=0, tag=""):
 
 
 def probe(ctx, exe):
-    """which recorded findings does the implementation under test still have?  (directed reproducers, nothing skipped)"""
+    """which recorded findings does the implementation under test still have?  (directed reproducers, nothing skipped)
+    returns (harness switches, trace configuration).  KF-C02-1 is not skipped: while it reproduces, runs are validated with
+    the invariant Readable replaced by ReadableExceptKF1 (exactly the recorded state excepted), so what the connection does
+    in and after that state is still checked -- in particular that handling POLLOUT makes the descriptor readable again."""
     status = {k["id"]: k.get("status") for k in core.load_known()}
-    skip = []
+    skip, cfg = [], "IpcMsgTrace.cfg"
     for kfid in sorted(KF):
         flag, scheds, what = KF[kfid]
         failing = False
@@ -121,17 +124,23 @@ def probe(ctx, exe):
             rc, so, se = ctx.run([exe, s, t], timeout=120)
             if rc != 0 or not ctx.validate("IpcMsgTrace.tla", "IpcMsgTrace.cfg", t).accepted:
                 failing = True
+                if kfid == "KF-C02-1" and (rc != 0 or not ctx.validate("IpcMsgTrace.tla", "IpcMsgTrace_kf1.cfg", t).accepted):
+                    p = ctx.save(kfid + "-beyond.sched", "\n".join(lines) + "\n")
+                    ctx.violation("the reproducer of %s is rejected even with the recorded state excepted: a different violation" % kfid, p)
                 break
         if not failing:
-            ctx.notes.append("%s no longer reproduces: its trigger is not excluded from generation" % kfid)
+            ctx.notes.append("%s no longer reproduces: its trigger is not excluded" % kfid)
             continue
         if status.get(kfid) == "fixed":
             p = ctx.save(kfid + ".sched", "\n".join(scheds[0]) + "\n")
             ctx.violation("%s is recorded as fixed but its reproducer is rejected again" % kfid, p)
         else:
             ctx.known(kfid, what)
-        skip.append(flag)
-    return skip
+        if kfid == "KF-C02-1":
+            cfg = "IpcMsgTrace_kf1.cfg"
+        else:
+            skip.append(flag)
+    return skip, cfg
 
 
 def run(ctx):
@@ -141,15 +150,15 @@ def run(ctx):
     # (1) design check: every reachable state of the bounded model satisfies the property
     #     (outside the recorded trigger KF1; the as-found configuration must still show it)
     r = ctx.model_check("IpcMsgMC.tla", "IpcMsgMC.cfg" if q else "IpcMsgMC_thorough.cfg", workers=W, timeout=1500)
-    ctx.check_vacuity(r, ["ACSend", "ACRecv", "ACEvRecv", "ACSendvRecv", "ACFcMax", "ASResp", "ASEvent", "ASRate",
+    ctx.check_vacuity(r, ["ACSend", "ACStall", "ACResume", "ACRecv", "ACEvRecv", "ACSendvRecv", "ACFcMax", "ASResp", "ASEvent", "ASRate",
                           "ADispBegin", "ACbBegin", "ACbEnd", "ADispEnd"])
     ra = ctx.model_check("IpcMsgMC.tla", "IpcMsgMC_asfound.cfg", workers=W, timeout=600, expect_violation="Readable", count=False)
     if ra.violated != "Readable":
         ctx.notes.append("model-level reproducer of KF-C02-1 (IpcMsgMC_asfound.cfg) no longer violates Readable")
 
     # (2) recorded findings still present? -> leave exactly their triggers out of the generated runs
-    skip = probe(ctx, exe)
-    ctx.log("harness switches:", skip or "none")
+    skip, tcfg = probe(ctx, exe)
+    ctx.log("harness switches:", skip or "none", "; trace configuration:", tcfg)
 
     # (3) spec -> code: TLC-generated call sequences (all of a small depth over a small alphabet, then long random walks)
     hs = [to_program(h) for h in gen(ctx, "IpcMsgGen.cfg", "bfs", 3 if q else 5, tag="-bfs")]
@@ -173,7 +182,7 @@ def run(ctx):
     order = list(range(len(allp)))
     random.Random(ctx.seed).shuffle(order)
     allp = [allp[i] for i in order]
-    ctx.exec_validate(exe, allp, lambda p: p, "IpcMsgTrace.tla", "IpcMsgTrace.cfg", label="c02", harness_args=skip,
+    ctx.exec_validate(exe, allp, lambda p: p, "IpcMsgTrace.tla", tcfg, label="c02", harness_args=skip,
                       nshards=W if q else 2 * W, timeout=1500)
     clean_shm(ctx)
     ctx.cov.update({"histories_tlc_exhaustive": n_bfs, "histories_tlc_exhaustive_depth": 3 if q else 5,
@@ -184,11 +193,14 @@ def run(ctx):
         "msg_process, standing for the concurrently running client); interleavings INSIDE a library call of the other side are not executed "
         "(the rings' word-level interleavings are C01's subject)",
         "zero timeouts on every client call; the client's buffers have exactly the negotiated size (qb_ipcc_get_buffer_size)",
-        "at most 200 requests are left undispatched (shm): qb_ipcc_send spins while the notification socket is full, which a single thread cannot resolve",
+        "a top-level qb_ipcc_send/sendv whose notification byte is refused (socket full) is resolved as in a real system: the harness's send() "
+        "records CStall and runs the server's dispatch function before the library retries; inside msg_process and for sendv_recv at most 200 "
+        "requests are left undispatched so that the spin cannot arise there",
         "channel capacities are the real ones (rings / socket buffers for max_msg_size 12328..20001); when a send to a NON-empty channel is refused is left open by the property and by the spec",
         "projection read by the harness: queue lengths (funcs.q_len_get), FIONREAD on both ends of the set-up socket, "
         "outstanding_notifiers, the events registered through dispatch_mod, poll() on both descriptors, the flow-control word",
         "libqb is compiled without UBSan's alignment check for this harness (misaligned request headers in the shm ring, lib/ipcs.c:692, are not C02's subject)",
-        "steps falling under the recorded findings (harness --kf-skip1 / --kf-skip2) are left out of generated runs while the finding still reproduces; each has a directed reproducer",
+        "while KF-C02-1 reproduces, runs are validated with Readable replaced by ReadableExceptKF1 (the recorded state excepted, nothing skipped); "
+        "steps falling under a recorded finding with a harness switch (--kf-skip2) are left out of generated runs while it reproduces; each finding has a directed reproducer",
         "bounded model: see model_runs constants",
     ]
